@@ -448,9 +448,9 @@ example : (Handshake.accept { version := "2" } (fun _ => []) none none []) = .ok
 
 /-! ### close → 403, HTTP-response extension → exactly that response -/
 
-theorem close_403 (token : Bytes → Bytes) (ext : Option Bytes) (s : S) (code : Option Nat)
+theorem close_403 (token : Bytes → Bytes) (ext : Option Bytes) (s : S) (code : CloseCode) (reason : Option HV)
     (hc : s.closed = false) (hst : s.st = .handshake) :
-    appSend token ext s (some (.close code)) = ({ s with st := .httpClosed }, errorResponse 403, none) := by
+    appSend token ext s (some (.close code reason)) = ({ s with st := .httpClosed }, errorResponse 403, none) := by
   simp [appSend, hc, hst]
 
 /-- body messages of a denial response: every chunk but the last with `more_body=True` -/
@@ -589,21 +589,29 @@ theorem disconnect_code_client_close_echo_lost (s : S) (c : Nat) (hc : s.closed 
 /-- the order itself, as a fact about the source -/
 theorem close_code_recorded_before_echo : HC.Extracted.WsGuards.closeBranch = ["recordCode", "echo"] := by decide
 
-/-- **after the application's own `websocket.close`: 1000** (close frame with the application's code, default 1000) -/
-theorem app_close_1000 (token : Bytes → Bytes) (ext : Option Bytes) (s : S) (code : Option Nat)
-    (hc : s.closed = false) (hp : s.hasAppPut = true) (hst : s.st = .connected) (hopen : s.conn = some .open) :
-    (appSend token ext s (some (.close code))).2 = ([.data (.close (code.getD 1000)), .endData], none) ∧
-    (handle (appSend token ext s (some (.close code))).1 .streamClosed).2.1 = [.disconnect 1000] := by
-  simp [appSend, hc, hst, sendWs, hopen, connSend, handle, hp]
+/-- **after the application's own `websocket.close`: 1000** (close frame with the application's code `k` — the value of
+    `int(code)`, default 1000 — for every close message a frame can be built from: `closeArgs … = .ok k`) -/
+theorem app_close_1000 (token : Bytes → Bytes) (ext : Option Bytes) (s : S) (code : CloseCode) (reason : Option HV) (k : Nat)
+    (hc : s.closed = false) (hp : s.hasAppPut = true) (hst : s.st = .connected) (hopen : s.conn = some .open)
+    (hk : closeArgs s code reason = .ok k) :
+    (appSend token ext s (some (.close code reason))).2 = ([.data (.close k), .endData], none) ∧
+    (handle (appSend token ext s (some (.close code reason))).1 .streamClosed).2.1 = [.disconnect 1000] := by
+  simp [appSend, hc, hst, hk, sendWs, hopen, connSend, handle, hp]
+
+/-- the hypothesis is satisfiable: no code (1000), any code that fits a close frame, with a str reason or none -/
+example (s : S) (hopen : s.conn = some .open) : closeArgs s .absent none = .ok 1000 := by simp [closeArgs, CloseCode.value, hopen, connSend, closeFrame]
+example (s : S) (hopen : s.conn = some .open) : closeArgs s (.int 3000) (some (.str "bye")) = .ok 3000 := by
+  simp [closeArgs, CloseCode.value, hopen, connSend, closeFrame]
 
 /-- **simultaneous close** (the application closed first, then the client's close frame arrives): no second close
     frame, and the application is told 1000 -/
-theorem simultaneous_close_1000 (token : Bytes → Bytes) (ext : Option Bytes) (s : S) (code : Option Nat) (c : Nat)
-    (hc : s.closed = false) (hp : s.hasAppPut = true) (hst : s.st = .connected) (hopen : s.conn = some .open) :
-    let s1 := (appSend token ext s (some (.close code))).1
+theorem simultaneous_close_1000 (token : Bytes → Bytes) (ext : Option Bytes) (s : S) (code : CloseCode) (reason : Option HV) (k c : Nat)
+    (hc : s.closed = false) (hp : s.hasAppPut = true) (hst : s.st = .connected) (hopen : s.conn = some .open)
+    (hk : closeArgs s code reason = .ok k) :
+    let s1 := (appSend token ext s (some (.close code reason))).1
     (handleEvents s1 [.close c]).2 = ([], [.streamClosed], none) ∧
     (handle (handleEvents s1 [.close c]).1 .streamClosed).2.1 = [.disconnect 1000] := by
-  simp [appSend, hc, hst, sendWs, hopen, connSend, handleEvents, connRecvClose, handle, hp]
+  simp [appSend, hc, hst, hk, sendWs, hopen, connSend, handleEvents, connRecvClose, handle, hp]
 
 /-- **connection lost while CONNECTED (EOF / reset, no close frame from the client): 1006** -/
 theorem lost_1006 (s : S) (hc : s.closed = false) (hp : s.hasAppPut = true) (hst : s.st = .connected)
